@@ -5,17 +5,20 @@ Local Open Scope string_scope.
 
 Definition c35_raw : list raw_site :=
   c35_cache_sites ++ c35_config_sites ++ c35_watcher_sites ++ c35_collect_sites ++
-  c35_transmit_sites ++ c35_peer_sites ++ c35_route_sites.
+  c35_transmit_sites ++ c35_peer_sites ++ c35_route_sites ++ c35_sample_sites ++
+  c35_metrics_sites ++ c35_health_sites ++ c35_pubsub_sites ++ c35_sharder_sites ++ c35_generics_sites ++ c35_agent_sites.
 
 Definition c35_table : list site := map mk_site c35_raw.
 
 Definition c35_go : list (string * string * string) :=
   c35_cache_go ++ c35_config_go ++ c35_watcher_go ++ c35_collect_go ++
-  c35_transmit_go ++ c35_peer_go ++ c35_route_go.
+  c35_transmit_go ++ c35_peer_go ++ c35_route_go ++ c35_sample_go ++
+  c35_metrics_go ++ c35_health_go ++ c35_pubsub_go ++ c35_sharder_go ++ c35_generics_go ++ c35_agent_go.
 
 Definition c35_fields : list (string * string * string) :=
   c35_cache_fields ++ c35_config_fields ++ c35_watcher_fields ++ c35_collect_fields ++
-  c35_transmit_fields ++ c35_peer_fields ++ c35_route_fields.
+  c35_transmit_fields ++ c35_peer_fields ++ c35_route_fields ++ c35_sample_fields ++
+  c35_metrics_fields ++ c35_health_fields ++ c35_pubsub_fields ++ c35_sharder_fields ++ c35_generics_fields ++ c35_agent_fields.
 
 (* HAND-LISTED happens-before facts (DESIGN §7 C35 "listed by hand for the few hand-off points").
    (struct, role, functions that may contain the go statement starting the role):
@@ -36,13 +39,16 @@ Definition c35_singletons : list (string * string * list string) :=
     ("cuckooSentCache", "lifecycle", []); ("CuckooTraceChecker", "lifecycle", []);
     ("ConfigWatcher", "lifecycle", []); ("DirectTransmission", "lifecycle", []);
     ("StressRelief", "lifecycle", []); ("RedisPubsubPeers", "lifecycle", []);
-    ("Router", "lifecycle", []); ("fileConfig", "lifecycle", []) ].
+    ("Router", "lifecycle", []); ("fileConfig", "lifecycle", []);
+    ("SamplerFactory", "lifecycle", []) ].
 
 Definition c35_singleton : string -> string -> bool := singleton_of c35_singletons.
 
 Definition c35_required_structs : list string :=
   ["cuckooSentCache"; "CuckooTraceChecker"; "fileConfig"; "ConfigWatcher"; "InMemCollector";
-   "CollectorWorker"; "StressRelief"; "DirectTransmission"; "eventBatch"; "RedisPubsubPeers"; "Router"].
+   "CollectorWorker"; "StressRelief"; "DirectTransmission"; "eventBatch"; "RedisPubsubPeers"; "Router";
+   "SamplerFactory"; "MultiMetrics"; "Health"; "LocalPubSub"; "GoRedisPubSub"; "DeterministicSharder";
+   "SetWithTTL"; "MapWithTTL"; "usageTracker"; "environmentCache"].
 
 (* everything the instance theorem needs, as one boolean *)
 Definition c35_instance_ok : bool :=
@@ -80,6 +86,10 @@ Definition pinned_collector_reload : list raw_site :=
   [ ("InMemCollector", "reload", "InMemCollector.Start", 1%N, [], ["lifecycle"], 2%N, false, false);
     ("InMemCollector", "reload", "InMemCollector.sendReloadSignal", 0%N, [], ["cb:InMemCollector.sendReloadSignal"], 2%N, true, false);
     ("InMemCollector", "reload", "InMemCollector.monitor", 0%N, [], ["InMemCollector.monitor"], 5%N, true, false) ].
+Definition pinned_sampler : list raw_site :=
+  [ ("SamplerFactory", "sharedDynsamplers", "SamplerFactory.ClearDynsamplers", 1%N, [("mutex", true)], ["ext"], 2%N, true, false);
+    ("SamplerFactory", "sharedDynsamplers", "SamplerFactory.createSampler", 0%N, [], ["ext"], 2%N, true, false);
+    ("SamplerFactory", "sharedDynsamplers", "getSharedDynsamplerAndRecorder", 1%N, [("mutex", true)], ["ext"], 2%N, true, false) ].
 Definition pinned_peers : list raw_site :=
   [ ("RedisPubsubPeers", "hash", "RedisPubsubPeers.checkHash", 0%N, [], ["cb:RedisPubsubPeers.listen"], 2%N, true, false);
     ("RedisPubsubPeers", "hash", "RedisPubsubPeers.checkHash", 1%N, [], ["cb:RedisPubsubPeers.listen"], 2%N, true, false);
